@@ -137,7 +137,7 @@ func runBatchCase(t *testing.T, sc *BatchSc, qp func(x *batchExec) string) (x *b
 				sawPrep = true
 			}
 		}
-		if !sawPrep && br.Panic == "" && br.Err == nil {
+		if !sawPrep && br.Panic == "" && br.Err == nil && !br.Rejected {
 			// the harness installs its prep/fallback callbacks by replacing the batch node's
 			// embedded CustomNode; if an implementation ignores that, nothing can be observed
 			br.Panic = "HARNESS-INCONCLUSIVE: the batch node never called the harness's prep callback (callbacks could not be installed)"
